@@ -312,23 +312,22 @@ theorem gyields_sound (g : Nat) (pat : Pat) : ∀ (evs : List GEv) (hist : List 
     cases ev with
     | mutate op =>
       have hg' := ngood_stStep hg op
-      simp only [gschedRaises, gyields, hg'.inv.err, Bool.false_or]
+      have herr : (n.stStep op).cx.err = false := hg'.inv.err
+      simp only [gschedRaises, gyields, herr, Bool.false_or]
       by_cases hs : gen.started = true
-      · simp only [hs, if_true]
+      · rw [if_pos hs]
         obtain ⟨h1, h2⟩ := hw hs
         refine ih _ _ _ hg' hp hr (fun _ => ⟨by simp, fun w hw' => ?_⟩)
         exact workOk_mono (fun x hx => List.mem_cons_of_mem _ hx) (keysLe_stStep n op) (h2 w hw')
-      · simp only [hs]
+      · rw [if_neg hs]
         exact ih _ _ _ hg' hp hr (fun h => (hs h).elim)
     | next =>
       have hwork : n ∈ (if gen.started = true then hist else [n]) ∧
           ∀ w ∈ gen.workAt n, WorkOk g pat (if gen.started = true then hist else [n]) n w := by
+        unfold NGen.workAt
         by_cases hs : gen.started = true
-        · obtain ⟨h1, h2⟩ := hw hs
-          simp only [hs, if_true, NGen.workAt]
-          exact ⟨h1, h2⟩
-        · simp only [hs, if_false, NGen.workAt, List.mem_singleton, true_and]
-          rw [hp, hr]; exact startWork_ok hg g pat
+        · rw [if_pos hs, if_pos hs]; exact hw hs
+        · rw [if_neg hs, if_neg hs, hp, hr]; exact ⟨by simp, startWork_ok hg g pat⟩
       obtain ⟨k1, k2, k3⟩ := runGen_ok hg g pat _ hwork.1 (gen.workAt n) hwork.2
       have hnext := ih (if gen.started = true then hist else [n]) n (gen.next n).1 hg hp hr
         (fun _ => ⟨hwork.1, by simpa [NGen.next, hp, hr] using k1⟩)
@@ -352,11 +351,11 @@ theorem runAll_append (n : NMem) (pat : Pat) (req : Ctx) : ∀ (a b : List Work)
   | nil => intro b; rfl
   | cons w r ih =>
     intro b
-    cases w <;> simp only [List.cons_append, NMem.runAll, ih]
-    · simp
-    · split <;> simp
-    · split <;> simp
-    · simp
+    cases w with
+    | snap t => simp [NMem.runAll, ih]
+    | leaf t => simp only [List.cons_append, NMem.runAll, ih]; split <;> simp
+    | probe t => simp only [List.cons_append, NMem.runAll, ih]; split <;> simp
+    | expand k => simp [NMem.runAll, ih]
 
 theorem runAll_snap (n : NMem) (pat : Pat) (req : Ctx) (l : List Triple) : n.runAll pat req (l.map Work.snap) = l := by
   induction l with
